@@ -99,7 +99,8 @@ func (w *simWorld) exportable(r *annRoute, src *PeerCfg, t *PeerCfg) (bool, stri
 	// AS loop towards the peer.  The statement names eBGP peers; for an iBGP peer the peer AS is
 	// the local AS, and a route carrying it (allow-own-as, or an API route built that way) would be
 	// discarded by the peer's own loop check - withholding it is loop prevention too.
-	if pathHasAS(r.Spec.ASPath, t.AS) {
+	// With replace-peer-as the peer's AS is substituted first, so it cannot loop.
+	if pathHasAS(r.Spec.ASPath, t.AS) && !(t.ReplacePeer && t.Kind == "ebgp") {
 		return false, "as-loop"
 	}
 	if isIBGPKind(t.Kind) {
@@ -204,7 +205,27 @@ func (w *simWorld) exportAttrs(r *annRoute, src *PeerCfg, t *PeerCfg) []*rAttrs 
 	if !local {
 		out.MED = -1
 	}
-	out.ASPath = prependAS(removeConfed(out.ASPath), g.AS)
+	path := out.ASPath
+	if t.ReplacePeer {
+		path = mapAS(path, func(a uint32) (uint32, bool) {
+			if a == t.AS {
+				return g.AS, true
+			}
+			return a, true
+		})
+	}
+	switch t.RemovePriv {
+	case "all":
+		path = mapAS(path, func(a uint32) (uint32, bool) { return a, !privateAS(a) })
+	case "replace":
+		path = mapAS(path, func(a uint32) (uint32, bool) {
+			if privateAS(a) {
+				return g.AS, true
+			}
+			return a, true
+		})
+	}
+	out.ASPath = prependAS(removeConfed(path), g.AS)
 	out.HasASPath = true
 	if local && in.NextHop != "" && in.NextHop != "0.0.0.0" && in.NextHop != "::" {
 		// locally originated with an explicit next hop: third-party next hop or self both legal
@@ -353,35 +374,41 @@ func (w *simWorld) decide(cands []cand) (best []cand, medComparable bool, preMED
 	// lowest ORIGIN
 	l = keepMin(l, func(c cand) int64 { return int64(c.r.Spec.Origin) })
 	preMED = l
-	// MED among comparable routes
+	// MED among comparable routes (RFC 4271 9.1.2.2 c): a route is removed if another route still in
+	// consideration, learned from the same neighbouring AS (or any, with always-compare-med; or both
+	// originated inside the local AS), has a lower MED
+	comparable := func(a, b cand) bool {
+		if g.AlwaysCompareMed {
+			return true
+		}
+		if asPathLen(a.r.Spec.ASPath) == 0 && asPathLen(b.r.Spec.ASPath) == 0 {
+			return true
+		}
+		return a.neighborAS() != 0 && a.neighborAS() == b.neighborAS()
+	}
 	medComparable = true
-	if !g.AlwaysCompareMed {
-		// the statement promises the full process only when MED is comparable across ALL
-		// candidates of the destination (not merely the survivors of the earlier steps): the
-		// implementation orders candidates pairwise, and a pairwise order with partially
-		// comparable MEDs is not total
-		allInternal := true
-		sameAS := true
-		for _, c := range cands {
-			if asPathLen(c.r.Spec.ASPath) != 0 {
-				allInternal = false
-			}
-			if c.neighborAS() == 0 || c.neighborAS() != cands[0].neighborAS() {
-				sameAS = false
+	for i := range cands {
+		for k := i + 1; k < len(cands); k++ {
+			if !comparable(cands[i], cands[k]) && cands[i].med() != cands[k].med() {
+				medComparable = false
 			}
 		}
-		allEq := true
-		for _, c := range cands {
-			if c.med() != cands[0].med() {
-				allEq = false
+	}
+	{
+		var keep []cand
+		for _, c := range l {
+			beaten := false
+			for _, d := range l {
+				if d.r.Tag != c.r.Tag && comparable(c, d) && d.med() < c.med() {
+					beaten = true
+				}
+			}
+			if !beaten {
+				keep = append(keep, c)
 			}
 		}
-		medComparable = allInternal || sameAS || allEq
+		l = keep
 	}
-	if !medComparable {
-		return l, false, preMED
-	}
-	l = keepMin(l, func(c cand) int64 { return c.med() })
 	// eBGP over iBGP
 	hasE := false
 	for _, c := range l {
@@ -522,4 +549,25 @@ func updateWireLen(a *rAttrs, fam wFamily, as2, pathID bool) int {
 		n += attrLen(2 + 1 + 1 + 16 + 1 + pid + 1 + 6) // MP_REACH: afi safi nhlen nh reserved nlri(/48)
 	}
 	return n
+}
+
+func privateAS(a uint32) bool {
+	return 64512 <= a && a <= 65534 || 4200000000 <= a && a <= 4294967294
+}
+
+// mapAS applies f to every AS number; f returns (replacement, keep). Empty segments disappear.
+func mapAS(p []asSeg, f func(uint32) (uint32, bool)) []asSeg {
+	var out []asSeg
+	for _, s := range p {
+		n := asSeg{Type: s.Type}
+		for _, a := range s.ASNs {
+			if v, keep := f(a); keep {
+				n.ASNs = append(n.ASNs, v)
+			}
+		}
+		if len(n.ASNs) > 0 {
+			out = append(out, n)
+		}
+	}
+	return out
 }
